@@ -33,6 +33,26 @@ CLAIMED["C10"] = dict(
     note="Trusted: Lean kernel; model checked by differential. Request options are assumed well typed; NaN/Infinity outside the quantifier. The exp == now-leeway boundary is left open as the property says: the oracle does not judge it (a change there breaks the correspondence and is reported without a failing input).",
     technique="Lean 4 proof (iff characterisation of the decision logic) + differential + transcribed-spec oracle",
     design="7/C10")
+CLAIMED["C11"] = dict(
+    text="Lean 4 theorems for the parts of JWK import/export that are joserfc's own: EC x/y/d exported with exactly the curve's coordinate length and decoding back to the same number for every value below 2^bits (c11_ec_coordinate, from the C19 fixed-width codec), RSA integers minimal and round-tripping, complete guarantees of validate_dict_key (required members, declared JSON types incl. use a string / key_ops a list, use/key_ops consistency), RSA CRT all-or-none, the PEM/DER loader chosen by the label of the first BEGIN line only for EVERY body (c11_pem_dispatch_label/table) and DER going to the DER loaders, as_dict returning the members held; kernel-decided regenerated tables. Native key (de)serialisation is pyca's (primitive contract). Tie: round trips of every key type through every export form, an independent strict RFC reader reconstructing keys from exported JWKs, interop, malformed-JWK refusal, and model-vs-implementation differential of as_dict, validate_dict_key, CRT rule, coordinate encoder, oct import warning and loader dispatch (pyca loaders intercepted in-process).",
+    note="Trusted: Lean kernel; extract.py; model checked by differential; pyca load/dump and number validation modelled as primitives, not verified. DER containing a -----BEGIN line is excluded by an explicit hypothesis.",
+    technique="Lean 4 proof (codecs, validation, loader dispatch) + generated tables + differential + independent RFC reader",
+    design="7/C11")
+CLAIMED["C12"] = dict(
+    text="Lean 4: for every key and every table, as_dict(private=False) contains no member flagged private and keeps every other member (c12_as_dict_public, _keeps); the same for every entry of KeySet.as_dict(private=False); a private export (JWK, PEM/DER choice) from a public-only key is an error; kernel-decided theorem that in the regenerated value registries exactly d,p,q,dp,dq,qi,oth,k are flagged private. Tie: as_dict/KeySet.as_dict differential, and a scan of every public-facing output (public JWK/key set/PEM/DER, thumbprint, kid, epk, every JWS/JWE/JWT serialization) for private member names and private octets in raw/hex/base64 form after recursive base64 decoding.",
+    note="Trusted: Lean kernel; extract.py; model checked by differential. That primitive outputs (signatures, ciphertexts) do not reveal keys is cryptography and not claimed; the epk/tokens part is decided by the implementation-side scan until the JWE model covers prepare_ephemeral_key.",
+    technique="Lean 4 proof (export filter) + generated tables + differential + leak scan",
+    design="7/C12")
+CLAIMED["C13"] = dict(
+    text="Lean 4: the hashed members are exactly RFC 7638's per key type in sorted order (kernel-decided on regenerated tables; sortStrings proved sorted); the thumbprint depends only on those members for ALL json/hash primitives (c13_depends_only_on_required), hence equal for private/public form, any member order and any optional members; kid assignment: only when absent, equal to the thumbprint, never overwritten, idempotent, and not itself hashed. Tie: Key.thumbprint() of every key type in every representation (JWK private/public/reordered/with optional members, PEM, DER, encrypted PEM; leading-zero EC coordinates) against an independent RFC 7638 computation from key material; kid stability; Lean thumbprint/ensureKid vs joserfc via the oracle protocol; RFC 7638 example.",
+    note="Trusted: Lean kernel; extract.py; json.dumps/hashlib as primitives (the concrete JSON text is covered by the differential and the reference computation, not proved).",
+    technique="Lean 4 proof + generated tables + differential + independent RFC 7638 reference",
+    design="7/C13")
+CLAIMED["C14"] = dict(
+    text="Lean 4: complete characterisation of get_by_kid (no kid: only the single key of a one-key set; else the first key whose kid equals the requested one; otherwise InvalidKeyIdError), uniqueness under distinct kids, consumption through a key set or callable uses get_by_kid(headers.kid) (c14_consume), production without kid picks one of the candidates of the algorithm's key types and records its (thumbprint) kid (c14_produce, c14_candidates_typed), kernel-decided algorithm->key-type table. Tie: get_by_kid/candidates differential; end-to-end consumption with the reference verifier over kid right/absent/unknown/other/non-string x protected/unprotected x compact/flattened/general x direct/callable; production with random.choice on an index tape and verification against the public set (JWS and JWE); key-set import/export.",
+    note="Trusted: Lean kernel; extract.py; model checked by differential; random.choice returns a member of its argument (primitive). A wrong-curve key of the right type picked at random makes signing fail (no token) - treated as outside the statement, never as success.",
+    technique="Lean 4 proof (iff characterisation) + generated table + differential + end-to-end oracle",
+    design="7/C14")
 PENDING = {}
 
 
